@@ -1,6 +1,7 @@
 //@unit columnar
 //@properties C30
 //@source col src/graph/storage/columnar.rs
+//@source prop src/graph/property.rs
 //@rules D2 R3 R5 R2
 #![feature(allocator_api)]
 #![allow(unused_imports, unused_variables, unused_mut, dead_code)]
@@ -508,6 +509,133 @@ impl<T: Clone + Default> ColumnData<T> {
                         assert(self.at(j) == mid_e.at(j));
                     }
                 }
+//@end
+}
+
+// =====================================================================
+// Column: the typed wrapper.  View: at(i) : Option<PropertyValue>
+// =====================================================================
+//@enum PropertyValue from=prop
+// derived Clone of PropertyValue: structural (A-STD)
+impl Clone for PropertyValue {
+    #[verifier::external_body]
+    fn clone(&self) -> (r: Self)
+        ensures r == *self
+    { unimplemented!() }
+}
+// A-LAYOUT: String's header is three words; only `<= 2^32` is used
+#[verifier::external_body]
+pub proof fn axiom_layout()
+    ensures
+        vstd::layout::size_of::<String>() <= 0xffff_ffff,
+        vstd::layout::size_of::<i64>() <= 0xffff_ffff,
+        vstd::layout::size_of::<f64>() <= 0xffff_ffff,
+        vstd::layout::size_of::<bool>() <= 0xffff_ffff,
+{}
+// A-CLONE at the four instantiations: Clone of i64/f64/bool/String returns an equal value
+#[verifier::external_body]
+pub proof fn axiom_clone_eq()
+    ensures clone_is_eq::<i64>(), clone_is_eq::<f64>(), clone_is_eq::<bool>(), clone_is_eq::<String>(),
+{}
+//@enum Column
+
+impl Column {
+    pub open spec fn wf(&self) -> bool {
+        match self {
+            Column::Int(m) => m.wf(),
+            Column::Float(m) => m.wf(),
+            Column::String(m) => m.wf(),
+            Column::Bool(m) => m.wf(),
+            Column::Other(m) => true,
+        }
+    }
+    pub open spec fn at(&self, i: usize) -> Option<PropertyValue> {
+        match self {
+            Column::Int(m) => match m.at(i) { Some(v) => Some(PropertyValue::Integer(v)), None => None },
+            Column::Float(m) => match m.at(i) { Some(v) => Some(PropertyValue::Float(v)), None => None },
+            Column::String(m) => match m.at(i) { Some(v) => Some(PropertyValue::String(v)), None => None },
+            Column::Bool(m) => match m.at(i) { Some(v) => Some(PropertyValue::Boolean(v)), None => None },
+            Column::Other(m) => if m@.contains_key(i) { Some(m@[i]) } else { None },
+        }
+    }
+    pub open spec fn is_empty_col(&self) -> bool { forall|j: usize| (#[trigger] self.at(j)).is_none() }
+
+    // K-PROMOTE (assumed here; bounded Kani check in unit columnar_kani): promote_to_other walks the column with a
+    // closure that captures `&mut spilled`, which Verus does not support, so its body stays outside Verus.
+    #[verifier::external_body]
+    fn promote_to_other(&mut self)
+        requires old(self).wf()
+        ensures
+            (*final(self)) is Other,
+            final(self).wf(),
+            forall|j: usize| #[trigger] final(self).at(j) == old(self).at(j),
+    { unimplemented!() }
+
+//@fn Column::new_int ret=r
+//@ensures
+        r.wf() && r.is_empty_col() && r is Int,   //#empty_int
+//@end
+//@fn Column::new_float ret=r
+//@ensures
+        r.wf() && r.is_empty_col() && r is Float,   //#empty_float
+//@end
+//@fn Column::new_string ret=r
+//@ensures
+        r.wf() && r.is_empty_col() && r is String,   //#empty_string
+//@end
+//@fn Column::new_bool ret=r
+//@ensures
+        r.wf() && r.is_empty_col() && r is Bool,   //#empty_bool
+//@end
+
+//@fn Column::for_value ret=r
+//@ensures
+        r.wf() && r.is_empty_col(),   //#fresh_column_is_empty
+//@end
+
+//@fn Column::set
+//@requires
+        old(self).wf(),
+        idx < usize::MAX,
+//@ensures
+        final(self).wf(),                                                                                          //#keeps_wf
+        forall|j: usize| #[trigger] final(self).at(j) == if j == idx { Some(value) } else { old(self).at(j) },     //#view_is_map_insert
+//@before "match (&mut *self, value)"
+        proof { axiom_layout(); axiom_clone_eq(); }
+//@after "self.promote_to_other();"
+                let ghost mid = *self;
+//@after "m.insert(idx, value);" 2
+                    proof {
+                        assert forall|j: usize| #[trigger] self.at(j) == if j == idx { Some(value) } else { old(self).at(j) } by {
+                            assert(mid.at(j) == old(self).at(j));
+                        }
+                    }
+//@end
+
+//@fn Column::remove
+//@requires
+        old(self).wf(),
+//@ensures
+        final(self).wf(),                                                                                  //#keeps_wf
+        forall|j: usize| #[trigger] final(self).at(j) == if j == idx { None } else { old(self).at(j) },    //#view_is_map_remove
+//@end
+
+//@fn Column::get ret=r
+//@requires
+        self.wf(),
+//@ensures
+        r == match self.at(idx) { Some(v) => v, None => PropertyValue::Null },   //#stored_value_or_null
+//@closure map#1 (v__r: &i64) -> (p: PropertyValue) ensures p == PropertyValue::Integer(*v__r)
+//@closure map#2 (v__r: &f64) -> (p: PropertyValue) ensures p == PropertyValue::Float(*v__r)
+//@closure map#3 (v__r: &bool) -> (p: PropertyValue) ensures p == PropertyValue::Boolean(*v__r)
+//@closure map#4 (s: &String) -> (p: PropertyValue) ensures p == PropertyValue::String(*s)
+//@end
+
+//@fn Column::has ret=r
+//@requires
+        self.wf(),
+//@ensures
+        r == self.at(idx).is_some(),   //#has_iff_stored
 //@end
 }
 
